@@ -49,3 +49,42 @@ prop('C14',
 # properties not claimed (reason) - kept current by hand
 NOT_APPLICABLE = {}
 HOOK_COMMITS = ['7d7dca5']
+
+prop('C06',
+     harness=['C06'],
+     rule='Generated: random trees over the whole abstract syntax of RSParserImpl.y (all operators, binders incl. tuple/enumerated declarations, '
+          'declarative/recursive/imperative constructors, filters, calls, function definitions, global declarations; types ignored), rendered by the '
+          'harness printer (own token tables and precedence table) to MATH and ASCII with 0-3 optional parenthesis layers where the grammar admits '
+          'them, random blanks/tabs/newlines; plus exhaustively every (parent, side, child) pair of binary operators in both syntaxes incl. the '
+          'unparenthesised a op1 b op2 c grouping. Oracle: parsed tree == generated tree; every node range == a span recorded by the printer '
+          '(core text or one of the node\'s own parenthesis layers); FindMinimalNode validity. Non-trivial: >=3 operator nodes and (a multi-byte '
+          'token or a redundant parenthesis layer or a newline). Distinct = hash of rendered text.',
+     technique='rapidcheck grammar-based generation with an independent printer/precedence model; parse result compared with the generating tree; exhaustive operator-pair table',
+     level_text='Generated-input exploration with a reference model of the grammar: trees are printed by an independent printer and the parser must '
+                'reconstruct exactly the generating tree and its code-point spans. A changed precedence/associativity line, semantic action or '
+                'position computation shows up as a tree or range mismatch on some generated text.',
+     level_note='Trusted base: the printer and precedence table in harness/model/rsast.hpp (transcribed from the grammar file). Integer literals are drawn '
+                'from [0, INT32_MAX] and indices from small values (overflow of literals is C05/C04 territory). A node range is accepted if it equals the '
+                'node\'s core span or one of its own parenthesis layers (the property says "exactly the text of its own subtree").',
+     design_ref='DESIGN.md section 5, C06',
+     assumptions=['only grammatical input (rejection of ungrammatical input is C04)'],
+     )
+
+prop('C05',
+     harness=['C05'],
+     rule='Generated: random grammatical trees over the whole abstract syntax (types ignored), Greek local names, rendered to MATH or ASCII by the '
+          'harness printer; exhaustively every operator as parent of every operator as left/right/both child (set/arithmetic, logical, and '
+          'negation/quantifier parents) in both source syntaxes. Oracle: Parse -> Generator::FromTree(MATH|ASCII) -> Parse gives a tree equal under '
+          'SyntaxTree::operator== and equal to the generating tree (ASCII: local names through my copy of the transliteration table); printing the '
+          're-parsed tree is a fixpoint; ConvertTo there-and-back preserves the tree when local names stay distinct; conversion is idempotent. '
+          'Non-trivial: an operator node with an operator child (bracket placement matters) or a constructor. Distinct = hash of rendered text. '
+          'Integer literals are drawn from [0, INT32_MAX] (see known findings).',
+     technique='rapidcheck grammar-based generation + print/parse round-trip oracle in both syntaxes + exhaustive operator-pair table',
+     level_text='Round-trip exploration over generated trees: every (parent, child, side) operator pair is covered exhaustively, deeper nestings and all '
+                'constructors by random generation. A missing bracket, a wrong token spelling in either syntax or an unstable printer shows up as a '
+                're-parse failure or a different tree.',
+     level_note='Trusted base: harness printer/precedence model (rsast.hpp) used to create the source text and the expected tree. Direct double '
+                'application of ConvertTo is only checked when the text has no "*" (MATH multiply vs ASCII product: the one token whose meaning differs).',
+     design_ref='DESIGN.md section 5, C05',
+     assumptions=['integer literals within int32, indices within int16'],
+     )
